@@ -21,7 +21,7 @@ SYSCALLS = ["openat", "write", "pread64", "close", "unlinkat"]
 ERR = {"openat": ["EMFILE", "ENOSPC"], "write": ["ENOSPC", "EIO"], "pread64": ["EIO"], "close": ["EIO"], "unlinkat": ["EACCES"]}
 
 def scenarios():
-    sc = [("spill", 0, "Off", 99), ("mem", 0, "Off", 99), ("upload", 1, "Off", 99), ("upload", 2, "Off", 99), ("upload", 2, "On", 99), ("trunc", 2, "Off", 99)]
+    sc = [("spill", 0, "Off", 99), ("mem", 0, "Off", 99), ("upload", 1, "Off", 99), ("upload", 2, "Off", 99), ("upload", 2, "On", 99), ("trunc", 2, "Off", 99), ("uploadoff", 2, "Off", 99)]
     if tier == "thorough":
         sc += [("upload", 3, "Off", 99), ("upload", 2, "RelevantOnly", 99), ("upload", 0, "Off", 99), ("trunc", 1, "Off", 99), ("trunc", 3, "On", 99)]
         sc += [(k, u, "Off", stop) for (k, u) in [("spill", 0), ("upload", 2)] for stop in range(1, 8)]
